@@ -62,6 +62,44 @@ pub enum Forge {
     MalformedSpki(u8),
     /// no certificate at all (client role only)
     NoCertificate,
+    /// the identity in play is a small-order curve point (nobody can hold a secret key for it); the
+    /// adversary presents it and a "signature" that needs no secret: sig 0 = (R = base point, s = 1),
+    /// 1 = (R = neutral, s = 0), 2 = (R = the point itself, s = 0)
+    SmallOrder { point: u8, sig: u8 },
+}
+
+/// Encodings of the eight small-order points of edwards25519 (order 1, 2, 4, 4, 8, 8, 8, 8).
+const SMALL_ORDER: [&str; 8] = [
+    "0100000000000000000000000000000000000000000000000000000000000000",
+    "ecffffffffffffffffffffffffffffffffffffffffffffffffffffffffffff7f",
+    "0000000000000000000000000000000000000000000000000000000000000000",
+    "0000000000000000000000000000000000000000000000000000000000000080",
+    "26e8958fc2b227b045c3f489f2ef98f0d5dfac05d3c63339b13802886d53fc05",
+    "26e8958fc2b227b045c3f489f2ef98f0d5dfac05d3c63339b13802886d53fc85",
+    "c7176a703d4dd84fba3c0b760d10670f2a2053fa2c39ccc64ec7fd7792ac037a",
+    "c7176a703d4dd84fba3c0b760d10670f2a2053fa2c39ccc64ec7fd7792ac03fa",
+];
+
+fn small_order_id(point: u8) -> Option<EndpointId> {
+    let bytes = data_encoding::HEXLOWER.decode(SMALL_ORDER[point as usize % 8].as_bytes()).ok()?;
+    EndpointId::from_bytes(&bytes.try_into().ok()?).ok()
+}
+
+fn secretless_signature(point: u8, sig: u8) -> Vec<u8> {
+    let mut v = vec![0u8; 64];
+    match sig % 3 {
+        0 => {
+            v[..32].copy_from_slice(&[0x66; 32]);
+            v[0] = 0x58; // the base point
+            v[32] = 1; // s = 1
+        }
+        1 => v[0] = 1, // R = neutral element, s = 0
+        _ => {
+            let p = data_encoding::HEXLOWER.decode(SMALL_ORDER[point as usize % 8].as_bytes()).unwrap();
+            v[..32].copy_from_slice(&p);
+        }
+    }
+    v
 }
 
 fn malformed_spki(expected: &EndpointId, own: &EndpointId, variant: u8) -> Vec<u8> {
@@ -92,15 +130,18 @@ struct AdvKey {
     own: SecretKey,
     /// secret of the expected key: only used by the Honest control
     expected_secret: SecretKey,
+    /// the identity the adversary claims (the dialed id / the impersonated client)
+    expected_id: EndpointId,
     garbage: Vec<u8>,
 }
 
 impl AdvKey {
     fn chain(&self) -> Vec<CertificateDer<'static>> {
-        let exp = self.expected_secret.public();
+        let exp = self.expected_id;
         let own = self.own.public();
         let c = |b: Vec<u8>| CertificateDer::from(b);
         match &self.forge {
+            Forge::SmallOrder { .. } => vec![c(spki(&exp))],
             Forge::Honest => vec![c(spki(&exp))],
             Forge::ForeignKey => vec![c(spki(&own))],
             Forge::StolenPublicKey | Forge::GarbageSignature(_) => vec![c(spki(&exp))],
@@ -119,7 +160,7 @@ impl AdvKey {
 impl rustls::sign::SigningKey for AdvKey {
     fn choose_scheme(&self, offered: &[SignatureScheme]) -> Option<Box<dyn rustls::sign::Signer>> {
         offered.contains(&SignatureScheme::ED25519).then(|| {
-            Box::new(AdvKey { forge: self.forge.clone(), own: self.own.clone(), expected_secret: self.expected_secret.clone(), garbage: self.garbage.clone() }) as Box<dyn rustls::sign::Signer>
+            Box::new(AdvKey { forge: self.forge.clone(), own: self.own.clone(), expected_secret: self.expected_secret.clone(), expected_id: self.expected_id, garbage: self.garbage.clone() }) as Box<dyn rustls::sign::Signer>
         })
     }
     fn algorithm(&self) -> rustls::SignatureAlgorithm {
@@ -135,6 +176,7 @@ impl rustls::sign::Signer for AdvKey {
         Ok(match &self.forge {
             Forge::Honest => self.expected_secret.sign(message).to_bytes().to_vec(),
             Forge::GarbageSignature(n) => self.garbage.iter().copied().cycle().take(*n as usize).collect(),
+            Forge::SmallOrder { point, sig } => secretless_signature(*point, *sig),
             _ => self.own.sign(message).to_bytes().to_vec(),
         })
     }
@@ -299,7 +341,9 @@ pub struct Case {
 pub struct C01;
 
 fn gen_forge(rng: &mut Rng, client: bool) -> Forge {
-    match rng.below(if client { 10 } else { 9 }) {
+    match rng.below(if client { 12 } else { 11 }) {
+        9 | 10 if !client => Forge::SmallOrder { point: rng.below(8) as u8, sig: rng.below(3) as u8 },
+        10 | 11 => Forge::SmallOrder { point: rng.below(8) as u8, sig: rng.below(3) as u8 },
         0 => Forge::Honest,
         1 => Forge::ForeignKey,
         2 => Forge::StolenPublicKey,
@@ -346,7 +390,16 @@ impl Typed for C01 {
             let (k, victim, adv) = (secret(0), secret(1), secret(2));
             let mut garbage_rng = Rng::new(case.seed ^ 0x6a7b);
             let garbage = garbage_rng.bytes(96);
-            let advkey = |forge: &Forge, expected: &SecretKey| AdvKey { forge: forge.clone(), own: adv.clone(), expected_secret: expected.clone(), garbage: garbage.clone() };
+            let advkey = |forge: &Forge, expected: &SecretKey| AdvKey {
+                forge: forge.clone(),
+                own: adv.clone(),
+                expected_secret: expected.clone(),
+                expected_id: match forge {
+                    Forge::SmallOrder { point, .. } => small_order_id(*point).unwrap_or(expected.public()),
+                    _ => expected.public(),
+                },
+                garbage: garbage.clone(),
+            };
             ctx.ev(format!("scenario {:?}", case.scenario));
             // records every connection an *iroh* endpoint reports as established: (who, remote_id it reports)
             let established: Established = Default::default();
@@ -475,7 +528,18 @@ impl Typed for C01 {
                             return;
                         }
                     };
-                    net.route(k.public(), 2);
+                    // the id being dialed: K, or a small-order point nobody holds a key for
+                    let dialed: EndpointId = match forge {
+                        Forge::SmallOrder { point, .. } => match small_order_id(*point) {
+                            Some(id) => id,
+                            None => {
+                                ctx.count("probe.small_order_id_not_representable");
+                                return;
+                            }
+                        },
+                        _ => k.public(),
+                    };
+                    net.route(dialed, 2);
                     let adv_done: Arc<Mutex<Vec<bool>>> = Default::default();
                     let ad = adv_done.clone();
                     let raw2 = raw.clone();
@@ -491,9 +555,9 @@ impl Typed for C01 {
                             });
                         }
                     });
-                    let res = tokio::time::timeout(Duration::from_secs(45), cl.connect(EndpointAddr::new(k.public()), ALPN)).await;
+                    let res = tokio::time::timeout(Duration::from_secs(45), cl.connect(EndpointAddr::new(dialed), ALPN)).await;
                     let ok = matches!(res, Ok(Ok(_)));
-                    ctx.ev(format!("victim connect(K) against raw server {forge:?} -> {}", if ok { "established" } else { "failed" }));
+                    ctx.ev(format!("victim connect against raw server {forge:?} -> {}", if ok { "established" } else { "failed" }));
                     if *forge == Forge::Honest {
                         // control: the adversary harness can complete a handshake when it holds the key
                         if lossless && !ok {
@@ -732,6 +796,37 @@ impl Typed for C01 {
 
     fn shrink_case(&self, case: &Case) -> Vec<Case> {
         let mut out = vec![];
+        // whether a secretless signature verifies for a small-order key of order > 1 depends on the
+        // handshake transcript (unseeded TLS randomness); for the neutral element it does not:
+        // prefer the transcript-independent variant so that the replay reproduces exactly
+        let neutral = |f: &Forge| match f {
+            Forge::SmallOrder { point, sig } if *point != 0 => Some(Forge::SmallOrder { point: 0, sig: *sig }),
+            _ => None,
+        };
+        match &case.scenario {
+            Scenario::DialRawServer(f) => {
+                if let Some(n) = neutral(f) {
+                    let mut c = case.clone();
+                    c.scenario = Scenario::DialRawServer(n);
+                    out.push(c);
+                }
+            }
+            Scenario::RawClient(f) => {
+                if let Some(n) = neutral(f) {
+                    let mut c = case.clone();
+                    c.scenario = Scenario::RawClient(n);
+                    out.push(c);
+                }
+            }
+            Scenario::ZeroRttAfterHijack(Some(f)) => {
+                if let Some(n) = neutral(f) {
+                    let mut c = case.clone();
+                    c.scenario = Scenario::ZeroRttAfterHijack(Some(n));
+                    out.push(c);
+                }
+            }
+            _ => {}
+        }
         if case.net.drop_pm + case.net.dup_pm + case.net.reorder_pm > 0 || case.net.delay_max_ms > 0 {
             let mut c = case.clone();
             c.net = NetCfg::default();
